@@ -756,7 +756,8 @@ fn compute_time_weighted_apy(
     if now <= stake_start_time {
         return apy_gradient[0];
     }
-    let total_seconds: u128 = (now - stake_start_time) as u128;
+    // `now > stake_start_time` here; `abs_diff` cannot overflow (unlike `now - stake_start_time`).
+    let total_seconds: u128 = now.abs_diff(stake_start_time) as u128;
     if total_seconds == 0 {
         return apy_gradient[0];
     }
